@@ -19,7 +19,7 @@ MC=/verif/target/verif/mc
 if [ "$1" = "replay" ]; then exec $MC replay "$2"; fi
 ID="$1"; TIER="${2:-quick}"
 case "$ID" in
-  C17|C18)
+  C14|C17|C18)
     if ! CARGO_TARGET_DIR=/verif/target/repo-bin cargo build --manifest-path /repo/Cargo.toml --bin ruschm --offline -q 2>/verif/target/build-bin.log; then
       echo "MACHINERY-ERROR build of ruschm binary failed"; tail -30 /verif/target/build-bin.log; exit 2
     fi ;;
